@@ -137,6 +137,7 @@ func (cx *c20Ctx) fidelityEP(fi *FuncInfo, ep *c20Endpoint, sym c20Sym) {
 	for _, role := range names {
 		c := "arg-fidelity@" + fi.Name() + " " + role
 		var lossy, fine []string
+		classes := map[string]bool{}
 		coords := false
 		for _, h := range byRole[role] {
 			what := role
@@ -150,6 +151,7 @@ func (cx *c20Ctx) fidelityEP(fi *FuncInfo, ep *c20Endpoint, sym c20Sym) {
 			if why := c20FloatLoss(h.fl); why != "" {
 				coords = coords || !strings.Contains(h.fl, "int→float64")
 				lossy = append(lossy, fmt.Sprintf("%s by %s (%s)", what, h.flsrc, why))
+				classes[c20LossName(h.fl)] = true
 			} else {
 				fine = append(fine, fmt.Sprintf("%s by %s", what, h.flsrc))
 			}
@@ -159,9 +161,50 @@ func (cx *c20Ctx) fidelityEP(fi *FuncInfo, ep *c20Endpoint, sym c20Sym) {
 			if coords {
 				hint = fmt.Sprintf("OSM coordinates have %d decimals (1e-7 degree); a bounding box is rounded edge by edge, so it can shrink to an empty box and exclude elements inside the requested bounds; use strconv.FormatFloat(v, 'f', -1, 64) or at least %%.%df", c20OSMDecimals, c20OSMDecimals)
 			}
+			// the rendering is part of the key of a violation: a known finding for one lossy rendering must not hide a
+			// different one at the same place; equivalent spellings (%f, four separate %f, FormatFloat(v,'f',6,64))
+			// share one class name
+			var cl []string
+			for n := range classes {
+				cl = append(cl, n)
+			}
+			sort.Strings(cl)
+			c += " " + strings.Join(cl, "+")
 			r.Bad(c, fi.Decl.Pos(), "%s renders %s: distinct arguments give the same request, so the URL is not the documented one for the call's arguments (%s)", fi.Name(), strings.Join(lossy, ", "), hint)
 			continue
 		}
 		r.OK(c, fi.Decl.Pos(), "every number of %s in the URL is rendered injectively: %s", role, strings.Join(fine, ", "))
 	}
+}
+
+// c20LossName names a lossy rendering class independently of its spelling: "6-decimals" (%f, %.6f,
+// FormatFloat(v,'f',6,64)), "2-decimals", "7-significant-digits" (%.7g, %.6e), "float32", "via-float64".
+func c20LossName(cl string) string {
+	var parts []string
+	for _, p := range strings.Split(cl, ",") {
+		switch {
+		case p == "int→float64":
+			parts = append(parts, "via-float64")
+		case p == "bits32":
+			parts = append(parts, "float32")
+		case p == "shortest":
+			// not lossy by itself (it is the companion, e.g. float32, that is)
+		case len(p) >= 2 && p[0] == 'f':
+			parts = append(parts, p[1:]+"-decimals")
+		case len(p) >= 2 && p[0] == 'g':
+			parts = append(parts, p[1:]+"-significant-digits")
+		case len(p) >= 2 && p[0] == 'e':
+			if n, err := strconv.Atoi(p[1:]); err == nil {
+				parts = append(parts, strconv.Itoa(n+1)+"-significant-digits")
+			} else {
+				parts = append(parts, p)
+			}
+		default:
+			parts = append(parts, p)
+		}
+	}
+	if len(parts) == 0 {
+		return "unrecognised"
+	}
+	return strings.Join(parts, "-")
 }
